@@ -80,7 +80,7 @@ def shared(owner):
     return owner.startswith(("CACHE", "FD", "KW:", "GLOBAL:", "PARAM:", "SELF:"))
 
 
-def analyse(rep, owner_filter=None, rule="no-inplace-on-shared", rels=None):
+def analyse(rep, owner_filter=None, rule="no-inplace-on-shared", rels=None, only=None):
     S = rep.sources
     fns = collect_functions(S, rels or RELS)
     an = Analyzer(fns)
@@ -88,6 +88,8 @@ def analyse(rep, owner_filter=None, rule="no-inplace-on-shared", rels=None):
     seen = set()
     n_ok = 0
     for m in muts:
+        if only is not None and m.fn.split("::")[1] not in only:
+            continue
         owners = {o for o in m.owners if shared(o)}
         if owner_filter:
             owners = {o for o in owners if owner_filter(o)}
@@ -117,7 +119,7 @@ def analyse(rep, owner_filter=None, rule="no-inplace-on-shared", rels=None):
     # every function analysed without a finding is an instance of the rule
     flagged_fns = {m.fn for m in muts}
     for q in fns:
-        if q not in flagged_fns:
+        if q not in flagged_fns and (only is None or q.split("::")[1] in only):
             rep.ok(rule, q)
     rep.extra_cov["functions_analysed"] = len(fns)
     rep.extra_cov["sinks_on_owned_values"] = len(seen)
